@@ -551,6 +551,31 @@ func (a *adversary) onPropose(nd *Node, p *hotstuff.ProposeMsg) bool {
 			}
 		}
 	}
+	if has(acts, "aggstale") && len(a.aggs) > 0 && a.chance(0.8) {
+		// an unhappy-path proposal justified by an aggregate of some earlier view: the block extends the high QC that
+		// old aggregate contains
+		old := a.aggs[a.intn(len(a.aggs))]
+		if uint64(old.View())+1 < uint64(b.View()) {
+			var high hotstuff.QuorumCert
+			found := false
+			for id := 1; id <= w.plan.N; id++ {
+				if qc, ok := old.QCs()[hotstuff.ID(id)]; ok && (!found || qc.View() > high.View()) {
+					if okb, _ := w.orc.qcBacked(qc); okb {
+						high, found = qc, true
+					}
+				}
+			}
+			if found && w.reg.get(high.BlockHash()) != nil {
+				b2 := hotstuff.NewBlock(high.BlockHash(), high, b.Commands(), b.View(), nd.id)
+				w.reg.add(b2, nd)
+				for _, id := range a.others(nd) {
+					a.sendTo(nd, id, "propose", hotstuff.ProposeMsg{ID: nd.id, Block: b2, AggregateQC: &old})
+				}
+				a.fired("aggstale")
+				return true
+			}
+		}
+	}
 	if has(acts, "aggswap") && p.AggregateQC != nil && a.chance(0.8) {
 		if agg, ok := a.swapInAggregate(nd, *p.AggregateQC); ok {
 			for _, id := range a.others(nd) {
